@@ -24,6 +24,12 @@ def observe(tier):
         info["tlc"].append({"cfg": cfg, "cmd": g.describe(), "states": g.stats["distinct"],
                             "transitions": g.n_lines, "wall_s": round(g.wall, 1)})
         info["records"]["R:" + cfg] = n
+    g = C.TlcGen("OdmlIds.tla", "MC_Ids.cfg", "ids", workers=2)
+    n, fs = par.replay_stream(g.chunks(200), "harness.ids", os.path.join(C.BUILD, "tree", "I"), procs=2)
+    info["id_files"] = fs
+    info["tlc"].append({"cfg": "MC_Ids.cfg", "cmd": g.describe(), "states": g.stats["distinct"],
+                        "transitions": g.n_lines, "wall_s": round(g.wall, 1)})
+    info["records"]["R:MC_Ids.cfg"] = n
     nh, depth = TIERS[tier]["hist"]
     rng = random.Random(C.seed())
     n, fs = par.replay_stream(tree.history_cases(nh, depth, rng, UNIVERSE), "harness.tree",
@@ -31,6 +37,26 @@ def observe(tier):
     files += fs
     info["records"]["H"] = n
     info["histories"] = nh
+    # T-binding: the repository's own tests under the external tracing plugin
+    import subprocess
+    raw = os.path.join(C.BUILD, "tree", "T_raw.ndjson")
+    env = dict(os.environ, ODML_VERIF="1", ODML_TRACE_OUT=raw,
+               PYTHONPATH=os.path.join(C.VERIF, "harness") + os.pathsep + C.REPO)
+    p = subprocess.run([sys.executable, "-m", "pytest", "-q", "-x", "-p", "no:cacheprovider", "-p", "odml_trace_plugin",
+                        "--deselect", "test/test_version_converter.py::TestVersionConverter::test_handle_include",
+                        "--deselect", "test/test_version_converter.py::TestVersionConverter::test_handle_repository",
+                        "test"], cwd=C.REPO, env=env, stdout=subprocess.PIPE, stderr=subprocess.STDOUT, text=True)
+    w = C.ObsWriter(os.path.join(C.BUILD, "tree", "T"))
+    if os.path.exists(raw):
+        for line in open(raw):
+            try:
+                w.write(json.loads(line))
+            except ValueError:
+                pass
+    w.close()
+    files += w.files
+    info["records"]["T"] = w.n
+    info["test_suite_tail"] = p.stdout.strip().splitlines()[-1:] 
     return files, info
 
 
@@ -38,6 +64,9 @@ def run(pid, tier):
     t0 = time.time()
     files, info = observe(tier)
     verdicts, jinfo = C.run_judges("JudgeTree.tla", "JudgeTree.cfg", files)
+    v2, j2 = C.run_judges("JudgeIds.tla", "JudgeIds.cfg", info["id_files"])
+    verdicts += v2
+    files = files + info["id_files"]
     nv, nk, summary = C.settle(pid, verdicts, files, tier)
     total = sum(info["records"].values())
     samples = []
@@ -62,4 +91,30 @@ def run(pid, tier):
                       "universe bounded as in the MC_Tree_*.cfg files"], time.time() - t0, nv)
     print("%s: %d observations judged, %d violations, %d known-finding cases, %d divergences (%.0fs)" % (
         pid, total, nv, nk, sum(summary["divergences"].values()), time.time() - t0))
+    return 1 if nv else 0
+
+
+def replay_file(pid, path):
+    """Re-run exactly the case stored in a replay file and re-judge it."""
+    from . import tree, ids, world
+    rec = json.load(open(path))["record"]
+    d = C.fresh_dir(os.path.join(C.BUILD, "replay_tree"))
+    w = C.ObsWriter(os.path.join(d, "one"))
+    with C.quiet():
+        if "kind" in rec and "in" in rec:
+            recs = list(ids.replay({"pre": {rec["kind"]: "f" if rec["pre"].startswith("f") else rec["pre"]},
+                                    "op": rec["op"], "kind": rec["kind"], "in": rec["in"]}))
+            judge = ("JudgeIds.tla", "JudgeIds.cfg")
+        elif rec.get("src") == "model" and "hist" not in rec:
+            recs = list(tree.replay({"pre": world.core(rec["pre"]), "op": rec["op"]}))
+            judge = ("JudgeTree.tla", "JudgeTree.cfg")
+        else:
+            print("this record comes from a history or a test trace; re-run the check with the same VERIF_SEED to reproduce it")
+            return 2
+    for r in recs:
+        w.write(r)
+    w.close()
+    verdicts, _ = C.run_judges(judge[0], judge[1], w.files)
+    nv, nk, _ = C.settle(pid, verdicts, w.files, "replay")
+    print("replayed %s: out=%s exc=%s -> %d violation(s)" % (path, recs[0]["out"], recs[0]["exc"], nv))
     return 1 if nv else 0
